@@ -9,5 +9,8 @@ func Point(name string, a, b, c int64) {}
 // Ptr is a no-op.
 func Ptr(p any) int64 { return 0 }
 
+// Addr is a no-op.
+func Addr(p any) int64 { return 0 }
+
 // B is a no-op.
 func B(v bool) int64 { return 0 }
